@@ -1,8 +1,9 @@
 SPECIFICATION Spec
 CONSTANTS
-  K = 4
+  K = 3
   MaxT = 5
   Types = {"f", "h", "fh"}
+  Lvls = {1, 2}
   EmitMode = "none"
 INVARIANTS TypeOK OutSorted OutPrefix Complete FromInput SingleType WithinGroup Collapsed EmitBuilt
 CHECK_DEADLOCK FALSE
